@@ -137,12 +137,13 @@ Proof. exact space_bound_lemma. Qed.
 Print Assumptions C03_space_bound.
 
 (* The replayer used by the correspondence check is sound: when it accepts an observed operation list, there
-   is a run of the LTS whose visible events are exactly those operations and which ends in the state whose
-   projection is compared with the implementation's. *)
+   is a run of the LTS whose visible events are exactly the events those operations stand for ("hold" = a FIFO
+   planted + Restart, with the feeder not scheduled past its first load; "release" = no event) and which ends in
+   the state whose projection is compared with the implementation's. *)
 Theorem C03_accept_sound :
-  forall matchf dirsize ops i s h s' h',
-  replay matchf dirsize i ops s h = inl (s', h') ->
-  exists evs, run matchf dirsize s evs = Some s' /\ visible evs = ops.
+  forall matchf dirsize ops i hold s h s' h',
+  replay matchf dirsize i ops hold s h = inl (s', h') ->
+  exists evs, run matchf dirsize s evs = Some s' /\ visible evs = ops_events ops.
 Proof. exact accept_sound_lemma. Qed.
 Print Assumptions C03_accept_sound.
 
